@@ -27,6 +27,8 @@ world = json.load(open("world.json", encoding="utf-8"))
 R.SIM.reset(world)
 R.SIM.clock = R.SimClock("steady", world["seed"])
 R.SIM.tty_out, R.SIM.tty_err = sys.stdout, sys.stderr
+if any(d.get("async") for d in world["steplib"]["defs"]):
+    R.SIM.vloop = R.make_virtual_loop(R.SIM.clock)
 R.reset_behave_globals(world)
 if world["cfg"].get("pre_handler"):
     logging.getLogger().addHandler(R.PreHandler())
